@@ -36,10 +36,10 @@ Goal forall (uc : unicode) (cfg : sc_config) (pd : parsed) (text : str),
 Proof. exact Props.C10.C10_lex_scala. Qed.
 Print Assumptions Props.C10.C10_lex_scala.
 Goal forall (uc : unicode) (cfg : go_config) (pd : parsed) (text : str),
-    unicode_ok uc -> Proofs.C10_GOFile.c10_go_cfg_ok cfg = true -> go_uppercase_acronyms cfg = [] -> dom_C10 CGO pd = true ->
+    unicode_ok uc -> Proofs.C10_GOFile.c10_go_cfg_ok cfg = true -> dom_C10 CGO pd = true ->
     go_generate uc cfg pd = Ok text -> good_C10_lex CGO text = true.
-Proof. exact Props.C10.C10_lex_go_partial. Qed.
-Print Assumptions Props.C10.C10_lex_go_partial.
+Proof. exact Props.C10.C10_lex_go. Qed.
+Print Assumptions Props.C10.C10_lex_go.
 Goal forall (uc : unicode) (cfg : sw_config) (pd : parsed) (text : str),
     Proofs.C10_SWFile.c10_sw_cfg_ok cfg = true -> dom_C10 CSW pd = true ->
     sw_generate uc cfg pd = Ok text -> good_C10_lex CSW text = true.
